@@ -143,6 +143,70 @@ def run_shard(desc):
             part["inconclusive"].append("%s: %s %s" % (what, kind_, detail))
         return True
 
+    if kind == "midreg":
+        # a registration that lands in the MIDDLE of one evaluation (the evaluating thread is parked inside a handler, the registrar
+        # runs, the evaluation resumes): its result must be what the same call gives entirely before or entirely after the
+        # registration -- both computed by the implementation itself in fresh sequential processes
+        for h in range(n):
+            sc = (h + si) % 6
+            nm = "mz%d_%d" % (si, h)
+            gate = {"op": "reg_fn", "name": "gatef", "beh": {"id": 30, "ret": "last", "gate": 2}}
+            nogate = {"op": "reg_fn", "name": "gatef", "beh": {"id": 30, "ret": "last"}}
+            h1 = {"id": 31000 + h, "ret": "tag"}
+            h2 = {"id": 32000 + h, "ret": "tag"}
+            pre, ctxv = [], {"x": ["n", "5", 0]}
+            if sc == 0:    # CALC -> SETTER with a new handler
+                pre = [{"op": "reg_infix", "name": nm, "prec": 115, "type": "CALC", "assoc": "LEFT", "beh": h1}]
+                reg = {"op": "reg_infix", "name": nm, "prec": 115, "type": "SETTER", "assoc": "LEFT", "beh": h2}
+                prog = "x %s gatef(1)" % nm
+            elif sc == 1:  # CALC -> CALC, new handler
+                pre = [{"op": "reg_infix", "name": nm, "prec": 115, "type": "CALC", "assoc": "LEFT", "beh": h1}]
+                reg = {"op": "reg_infix", "name": nm, "prec": 115, "type": "CALC", "assoc": "LEFT", "beh": h2}
+                prog = "6 %s gatef(4)" % nm
+            elif sc == 2:  # a postfix word registered while a statement chain that mentions it twice is running
+                reg = {"op": "reg_postfix", "name": nm, "beh": h2}
+                prog = "a = 1 %s; gatef(0); b = 1 %s; [a, b]" % (nm, nm)
+            elif sc == 3:  # a new infix word
+                reg = {"op": "reg_infix", "name": nm, "prec": 115, "type": "CALC", "assoc": "LEFT", "beh": h2}
+                prog = "6 %s gatef(4)" % nm
+            elif sc == 4:  # SETTER -> CALC
+                pre = [{"op": "reg_infix", "name": nm, "prec": 20, "type": "SETTER", "assoc": "RIGHT", "beh": h1}]
+                reg = {"op": "reg_infix", "name": nm, "prec": 20, "type": "CALC", "assoc": "RIGHT", "beh": h2}
+                prog = "x %s gatef(1); x" % nm
+            else:          # a global function replaced while its (single) call is evaluating its argument
+                pre = [{"op": "reg_fn", "name": nm, "beh": h1}]
+                reg = {"op": "reg_fn", "name": nm, "beh": h2}
+                prog = "%s(gatef(7))" % nm
+            via = {"via": "execute"} if (h // 6 + si) % 2 else {}
+            ex = dict({"op": "exec", "ctx": 1, "text": prog}, **via)
+            cx = {"op": "ctx", "id": 1, "vars": ctxv}
+            outs = []
+            for variant in ("old", "new"):
+                st_ = [{"op": "exec", "text": "1 + 1"}, nogate] + pre + ([reg] if variant == "new" else []) + [cx, ex]
+                r_ = common.run_vexec(st_, wd, "mid-%s-%d-%d" % (variant, si, h), profile, timeout=120)
+                outs.append((r_.steps()[-1].get("res"), r_.steps()[-1].get("snap")) if r_.ended and r_.steps() else None)
+            steps = [{"op": "exec", "text": "1 + 1"}, gate] + pre + [{"op": "threads", "plans": [[cx, ex], [{"op": "wait_tick", "n": 1}, reg, {"op": "tick"}]]}]
+            run = common.run_vexec(steps, wd, "mid-%d-%d" % (si, h), profile, timeout=120)
+            if crashed(run, steps, "registration in the middle of an evaluation"):
+                continue
+            if None in outs:
+                part["inconclusive"].append("midreg reference run failed")
+                continue
+            th = run.steps()[-1].get("threads", [])
+            if not (isinstance(th, list) and len(th) == 2 and isinstance(th[0], list) and len(th[0]) == 2):
+                viol(["thread-panicked", "midreg"], "a thread panicked outside a step", steps)
+                continue
+            got = (th[0][1].get("res"), th[0][1].get("snap"))
+            part["evaluations"] += 1
+            C["midreg_evaluations"] = C.get("midreg_evaluations", 0) + 1
+            if got == outs[0] or got == outs[1]:
+                part["classes"].add("midreg:scenario%d:%s:%s" % (sc, "execute" if via else "exec", "old" if got == outs[0] else "new"))
+            else:
+                viol(["registration-seen-halfway", "scenario%d" % sc, "execute" if via else "parse+exec"],
+                     "`%s` (%s) was evaluating -- parked inside a handler -- while another thread ran %s %s; it returned %s / context %s, which is neither what the call gives before the registration (%s / %s) nor after it (%s / %s)" % (
+                         prog, "execute" if via else "parse_expression + exec", reg["op"], json.dumps({k_: v_ for k_, v_ in reg.items() if k_ in ("name", "type", "prec")}), json.dumps(got[0]), json.dumps(got[1]), json.dumps(outs[0][0]), json.dumps(outs[0][1]), json.dumps(outs[1][0]), json.dumps(outs[1][1])), steps)
+        part["classes"] = sorted(part["classes"])
+        return part
     if kind == "regrace":
         # rounds of simultaneous registrations: T threads leave a spin rendezvous together, each registers one new name (every round
         # uses each registry at least once; names differ in length and grow from round to round), evaluates a program using it right
@@ -516,6 +580,7 @@ def run(rep, tier):
         shards.append(("stress", i, ns // 16, "release" if i % 2 else "verifdbg"))
     for i in range(16):
         shards.append(("regrace", i, 3 if q else 60, "release" if i % 2 else "verifdbg"))
+        shards.append(("midreg", i, 12 if q else 240, "release" if i % 2 else "verifdbg"))
     for part in common.pmap(run_shard, shards):
         rep.merge(part)
     rep.extra["interleavings_seen"] = len([c for c in rep.classes if c.startswith("order:")])
